@@ -152,7 +152,9 @@ type c10Case struct {
 }
 
 var c10Payload = []string{"{% set foo = 1 %}", "{{ range .Values }}", "  - record: hidden", "    expr: sum(secret) by (", "- alert: Bad", "\t\tbroken: [yaml",
-	"key: : :", "'unterminated", "groups:", "  rules: {", "plain text here", "", "  ", "- name: other", "    expr: up", "*anchor", "&x y: *x", "--- ", "# not a pint comment", "#pintx foo"}
+	"key: : :", "'unterminated", "groups:", "  rules: {", "plain text here", "", "  ", "- name: other", "    expr: up", "*anchor", "&x y: *x", "--- ", "# not a pint comment", "#pintx foo",
+	// text that is not ASCII: byte offsets and character offsets differ on these lines
+	"{% set title = \"日本語\" %}", "größe: [ünterminated", "- record: naïve:é", "    expr: sum(sécret) by (", "—— ✓ ——", "key: \"\u00e9\" é: :"}
 var c10PayloadCtl = []string{"# pint ignore/next-line", "# pint ignore/begin", "# pint ignore/file", "# pint file/disable promql/syntax", "# pint file/owner bob",
 	"# pint disable alerts/template", "  # pint ignore/line", "foo # pint ignore/line", "# pint file/snooze 2099-01-01 promql/syntax", "# pint ignore/end x", "# pint rule/set foo bar"}
 
